@@ -246,6 +246,15 @@ def worker(rec, shard, nshards, setups, lits, seed):
                 if ("UNITS_MISSING", 10) not in codes or any(c in ("UNITS_INVALID", "VALUE_INVALID") for c, _ in codes):
                     rec.violation("C11:bare-number-not-only-missing-unit-warning", schema=st.label, text=text, codes=codes)
                 rec.outcome("bare")
+                # where every unit class of the tag names one of its own units as the default, asking for the value of a bare
+                # number in default units is no exception
+                ucs = [st.model.unit_classes.get(c) for c in as_list(tag.value_child.attrs.get("unitClass"))]
+                if len(ucs) == 1 and ucs[0] is not None and ucs[0].attrs.get("defaultUnits") in ucs[0].units:
+                    try:
+                        HedTag(text, st.schema).value_as_default_unit()
+                    except Exception as e:
+                        rec.violation("C11:bare-number-conversion-raises:" + type(e).__name__, schema=st.label, text=text,
+                                      default_unit=ucs[0].attrs.get("defaultUnits"), error=repr(e)[:200])
             # texts that Python's float() reads and the numeric class does not: not numbers, whatever unit follows
             vcs = as_list(tag.value_child.attrs.get("valueClass"))
             first_unit = next((u.name for u, uc in st.orc.units_of(tag) if "unitPrefix" not in u.attrs and " " not in u.name), None)
